@@ -21,6 +21,7 @@ PROGRAM = """(set 'counter 0)
 (defun qlit () '(''(3 1 2) ''(9 8 7) ''(6 5 4)))
 (defun by-min (a b) (< (first (stable-sort < (eval a))) (first (stable-sort < (eval b)))))
 (defun op-quotecmp () (progn (stable-sort by-min (qlit)) (eval (first (qlit)))))
+(defun op-slicelist () (stable-sort < (slice 'list (lit) 0 3)))
 (defun op-slicefull () (stable-sort < (slice 'vector (lit) 0 3)))
 (defun op-slicetail () (stable-sort < (slice 'vector (lit) 1 3)))
 (defun op-slicecdr () (stable-sort < (slice 'vector (cdr (lit)) 0 2)))
@@ -41,7 +42,7 @@ PROGRAM = """(set 'counter 0)
 (defun op-mapsort () (car (map 'list (lambda (x) (stable-sort < x)) (nested))))
 (defun op-foldsort () (foldl (lambda (acc x) (stable-sort < x)) () (nested)))
 """
-FORM = {"quotecmp": "(op-quotecmp)", "slicefull": "(op-slicefull)", "slicetail": "(op-slicetail)", "slicecdr": "(op-slicecdr)", "sort": "(op-sort)", "cdrsort": "(op-cdrsort)", "slicepush": "(op-slicepush)", "append0": "(op-append0)", "restsort": "(op-restsort)",
+FORM = {"slicelist": "(op-slicelist)", "quotecmp": "(op-quotecmp)", "slicefull": "(op-slicefull)", "slicetail": "(op-slicetail)", "slicecdr": "(op-slicecdr)", "sort": "(op-sort)", "cdrsort": "(op-cdrsort)", "slicepush": "(op-slicepush)", "append0": "(op-append0)", "restsort": "(op-restsort)",
         "macroarg": "(op-macroarg)", "define": "(op-define)", "read": "(op-read)", "reload": "(reload)",
         "applyrest": "(op-applyrest)", "applycdr": "(op-applycdr)", "applyreq": "(op-applyreq)", "funcallopt": "(op-funcallopt)",
         "mapsort": "(op-mapsort)", "foldsort": "(op-foldsort)"}
@@ -98,8 +99,8 @@ def _run(V, work, tier):
     if r3.error:
         raise MachineryError("Shared simulation failed: " + r3.error)
     V.coverage.setdefault("tlc_runs", []).append({"what": "Shared simulation R=3 LEN=3", "printed": len(r3.lines)})
-    if not thorough:
-        behaviours = rnd.sample(behaviours, min(len(behaviours), 1500))
+    # TLC has checked every behaviour; the replay takes a sample (all of them took 25 minutes)
+    behaviours = rnd.sample(behaviours, min(len(behaviours), 120000 if thorough else 1500))
     behaviours = behaviours + r3.lines
     recs = []
     for i, b in enumerate(behaviours):
@@ -141,7 +142,7 @@ def _run(V, work, tier):
                     V.add(None, "free-running runtime %d differs from its solo run: %s vs %s" % (r + 1, o["results"][r], o["solo"][r]), {"id": o["id"]})
     V.coverage["free_running_race_runs"] = len(free)
     V.coverage["traces_validated_against_impl"] = len(behaviours)
-    V.coverage["exhaustive"] = thorough
+    V.coverage["exhaustive"] = False
     V.coverage["explanation"] = "%d gated behaviours (schedules from TLC) replayed on shared parses; %d free-running 8-goroutine runs under -race" % (len(behaviours), len(free))
     V.assumptions += ["gated replay orders operations with channels, so only the free-running runs can exhibit data races"]
     return V.finish()
